@@ -242,7 +242,7 @@ PROPS["C04"] = {
 	] + [
 	] + [
 		H(f"c04_declared_{a}_{b}", CONV, "container::converter::kani_harness", funcs=["TilesConvertReader::new_from_reader", "TileConverter::new_tile_recompressor", "TileConverter::process_blob"],
-			bounds=f"source {a}, requested {b} (concrete per instance); force, flip, swap symbolic; every 2-byte payload", sample="force, flip, swap, payload", stubs=[CODEC, POW], timeout=900, unwindset=PYR_LOOPS, tier=t)
+			bounds=f"source {a}, requested {b} (concrete per instance); force symbolic; every 2-byte payload", sample="force, payload", stubs=[CODEC, POW], timeout=900, unwindset=PYR_LOOPS, tier=t)
 		for a, b, t in [("u", "keep", "quick"), ("g", "keep", "quick"), ("b", "keep", "thorough"), ("u", "g", "thorough"), ("u", "b", "quick"), ("g", "u", "quick"), ("g", "g", "thorough"), ("g", "b", "thorough"), ("b", "u", "thorough"), ("b", "g", "quick"), ("b", "b", "quick"), ("u", "u", "thorough")]
 	],
 	"meta": {
@@ -365,7 +365,7 @@ PROPS["C09"] = {
 PROPS["C02"] = {
 	"harnesses": [
 		H(f"c02_default_stream_{w}", CORE, "verif_kani::c02", funcs=["TilesReaderTrait::get_bbox_tile_stream (default)", "TileStream::from_coord_vec_async", "TileBBox::iter_coords"],
-			bounds=f"requested box at most {w} tiles at any level/position (all four empty shapes included); reader content = symbolic box minus a symbolic hole", sample="reader box, hole, requested box q", stubs=[POW], tier=t, timeout=to, unwindset=PYR_LOOPS)
+			bounds=f"requested box at most {w} tiles at any level/position (all four empty shapes included); reader content = symbolic box minus a symbolic hole", sample="reader box, hole, requested box q", stubs=[POW], tier=t, timeout=to)
 		for w, t, to in [("2x1", "quick", 900), ("1x2", "thorough", 1200), ("2x2", "thorough", 2400)]
 	] + [
 		H("c06_h3_stream", CONV, c06, funcs=["<TilesConvertReader as TilesReaderTrait>::get_bbox_tile_stream"], bounds="converting reader: see C06 (box at most 2x2, all flag combinations)", sample="see C06", stubs=[POW], tier="thorough", timeout=2400, unwindset=PYR_LOOPS),
@@ -377,7 +377,10 @@ PROPS["C02"] = {
 }
 PROPS["C03"] = {
 	"harnesses": [
-		H("c03_include_coord_fold", CORE, "verif_kani::c02", funcs=["TileBBoxPyramid::include_coord", "TileBBox::include_coord", "TileBBoxPyramid::contains_coord"], bounds="3 stored tiles at symbolic levels/coordinates (valid for their level)", sample="3 symbolic coordinates", stubs=[POW], timeout=900),
+	] + [
+		H(f"c03_include_coord_fold_{n}", CORE, "verif_kani::c02", funcs=["TileBBoxPyramid::include_coord", "TileBBox::include_coord", "TileBBoxPyramid::contains_coord"], bounds=f"3 stored tiles at zoom levels {n} (concrete per instance), coordinates symbolic (valid for their level)", sample="3 symbolic coordinates", stubs=[POW], timeout=900, tier=t)
+		for n, t in [("5_5_5", "quick"), ("0_31_5", "quick"), ("31_31_31", "thorough")]
+	] + [
 		H("c16_block_index_sparse", CONT, f"{VT}::block_index::kani_harness", funcs=["BlockIndex::get_bbox_pyramid"], bounds="versatiles: coverage = union of block boxes (see C16)", sample="see C16", stubs=[POW, "HashMap model"], timeout=900),
 		H("c15_h11_pyramid_include_l7", CORE, "verif_kani::c15pyr", funcs=["TileBBoxPyramid::include_bbox_pyramid"], bounds="pipeline unions (overlay/merge): union contains both operands (see C15)", sample="see C15", stubs=[POW], timeout=900),
 		H("c06_h1_coverage", CONV, c06, funcs=["TilesConvertReader::new_from_reader"], bounds="converting reader: advertised coverage = selected pre-image set (see C06)", sample="see C06", stubs=[POW], timeout=900, unwindset=PYR_LOOPS),
@@ -449,3 +452,36 @@ PROPS["C06"]["harnesses"] = [h for h in PROPS["C06"]["harnesses"] if h.name in (
 PROPS["C06"]["meta"]["assumptions"].append("transform consistency: the call sequences of flip_y/swap_xy are extracted from the MIR of new_from_reader, get_tile_data, get_bbox_tile_stream (and its map_coord closure) for each of the 4 flag assignments and compared in z3/cvc5 against each other and the specification; data-dependent early exits before the source is consulted make the result inconclusive")
 PROPS["C06"]["meta"]["out"] += ["payloads on the lookup/stream path (the async reader is not executed; C04 decides the recompression pipeline)", "the requested-pyramid filter on the lookup/stream path (neither path consults it on this tree)"]
 PROPS["C02"]["harnesses"] = [h for h in PROPS["C02"]["harnesses"] if h.name != "c06_h3_stream"]
+
+# =============================================================================================
+# Registration: what was measured to finish on the reference tree (DESIGN.md 0.5). Harnesses that never produced a verdict
+# stay in the sources but are not run by any tier; TIER_OVERRIDE moves measured-slow ones to the thorough tier.
+# =============================================================================================
+UNREGISTERED = {
+	# async converting reader / pipeline operations (dyn dispatch + boxed futures): 5-38 GB, no verdict
+	"c06_h3_stream",
+	# Kani 0.68 internal compiler error (intrinsics.rs:243) when compiling the harness
+	"c05_h3_tile_request_1", "c05_h3_tile_request_2", "c05_h3_tile_request_5", "c05_h3_tile_request_6",
+	# decoders reading through Box<dyn ValueReader> sub-readers / from_utf8 on symbolic bytes: time-outs at the smallest bound
+	"c19_pbf_string_3", "c19_pbf_string_11", "c19_pbf_packed_4", "c19_pbf_packed_11", "c19_pbf_sub_reader_11", "c19_sub_reader_any_length",
+	"c19_vector_tile_any_2", "c19_vector_tile_any_4", "c19_geo_value_any_3", "c19_geo_value_any_10", "c19_layer_any_3", "c19_layer_any_5",
+	"c19_tile_id_to_coord_any",
+	"c11_value_uint", "c11_value_int", "c11_value_bool", "c11_value_float", "c11_value_double", "c11_value_string",
+	# Kani 0.68 internal compiler error (place.rs:812) for the <1, 1> instances
+	"c11_layer_read_1_1", "c11_layer_reencode_1_1", "c10_layer_merge_1_1",
+	# float division at zoom >= 24 did not finish in 2400 s
+	"c15_h12_geo_x_z24", "c15_h12_geo_x_z31", "c15_h6_count",
+	"c15_h7_index_roundtrip",
+}
+TIER_OVERRIDE = {
+	"c19_entries_v3_any_2": "thorough", "c15_h8_iter_coords_2x2": "thorough", "c15_h11_pyramid_include_l7": "thorough",
+	"c15_h9_grid_s2_1x2": "thorough", "c15_h9_grid_s256_256x1": "thorough",
+}
+if "C17" in PROPS:
+	del PROPS["C17"]  # no harness of the JSON string kernel finished (DESIGN.md 0.2 item 5, section 8 fallback rule)
+for _pid, _spec in PROPS.items():
+	if "harnesses" in _spec:
+		_spec["harnesses"] = [h for h in _spec["harnesses"] if h.name not in UNREGISTERED]
+		for h in _spec["harnesses"]:
+			if h.name in TIER_OVERRIDE:
+				h.tier = TIER_OVERRIDE[h.name]
